@@ -2,6 +2,13 @@
 from .condprops import make_case, CTOR_VARIANTS
 
 PROP = "C07"
+
+BOUNDS = {
+    "quick": "five conditional kinds; (Dx,Dy) in {(1,1),(2,1),(1,2)} fully symbolic and (2,2) with the prior covariance concrete (both log-determinant branches); (R_cond,R_x) in {(1,1),(1,2),(2,1)}; constructor / history / prior variants: conditional from the precision only, from covariance and precision together, after update_Sigma; prior of the diagonal class or built from covariance and precision",
+    "thorough": "(3,1),(1,3),(2,3),(3,2) and identity D=3 semi-symbolic with rotating concrete blocks, batches up to 3",
+}
+ASSUMPTIONS = ["NN-controlled conditional: control_func(u) = u P + q with symbolic u, P (q = 0 unless stated): (M(u), b(u)) ranges over all matrices / vectors"]
+
 KINDS = ["full", "diag", "identity", "identitydiag", "nncontrol"]
 
 
